@@ -805,8 +805,14 @@ func (c *Context) Ln(d, x *Decimal) (Condition, error) {
 	}
 
 	// The internal precision needs to be a few digits higher because errors in
-	// series/iterations add up.
+	// series/iterations add up. The power series below takes about as many
+	// terms as the precision has digits and each term adds a rounding error,
+	// so the number of guard digits grows with the length of the precision
+	// (with two, Ln(0.5) at Precision 2045 was 1.1 ulp off when rounded down).
 	p := c.Precision + 2
+	for q := c.Precision; q >= 10; q /= 10 {
+		p++
+	}
 
 	nc := c.WithPrecision(p)
 	nc.Rounding = RoundHalfEven
